@@ -399,12 +399,15 @@ func (obj *DenseInt64VectorJointIterator) Index() int {
   return obj.idx
 }
 func (obj *DenseInt64VectorJointIterator) Ok() bool {
-  return !(obj.s1.ptr == nil || obj.s1.GetFloat64() == 0.0) ||
-         !(obj.s2 == nil || obj.s2.GetFloat64() == 0.0)
+  return obj.idx != -1
 }
 func (obj *DenseInt64VectorJointIterator) Next() {
   ok1 := obj.it1.Ok()
   ok2 := obj.it2.Ok()
+  if !ok1 && !ok2 {
+    // both iterators are exhausted
+    obj.idx = -1
+  }
   obj.s1.ptr = nil
   obj.s2 = nil
   if ok1 {
